@@ -88,6 +88,28 @@ func vC11Names() map[int]string {
 	return names
 }
 
+// vDeviation classifies how got differs from want (both are sub-sequences of the original frames).
+func vDeviation(got, want []int) string {
+	isPrefix := func(a, b []int) bool { // a prefix of b
+		if len(a) > len(b) {
+			return false
+		}
+		for i := range a {
+			if a[i] != b[i] {
+				return false
+			}
+		}
+		return true
+	}
+	switch {
+	case isPrefix(want, got):
+		return "kept-more" // pruned less than the rule says
+	case isPrefix(got, want):
+		return "dropped-more" // pruned more, from the leaf side
+	}
+	return "holes" // frames are missing from the middle or the root side
+}
+
 func vSameInts(a, b []int) bool {
 	if len(a) != len(b) {
 		return false
@@ -164,13 +186,14 @@ func VerifC11Prune() {
 				multi = true
 			}
 		}
+		dev := vDeviation(got, want[si])
 		switch {
 		case len(shape) > 1:
-			vAssert(false, "C11.prune.shared-location: frames of a location shared between samples were trimmed according to another sample's context")
+			vAssert(false, "C11.prune.shared-location."+dev+": frames of a location shared between samples were trimmed according to another sample's context")
 		case multi:
-			vAssert(false, "C11.prune.inline-location: a location with inlined frames was trimmed although the sample-level scan decided otherwise")
+			vAssert(false, "C11.prune.inline-location."+dev+": a location with inlined frames was trimmed although the sample-level scan decided otherwise")
 		default:
-			vAssert(false, "C11.prune.frames: remaining frames differ from the documented rule")
+			vAssert(false, "C11.prune.frames."+dev+": remaining frames differ from the documented rule")
 		}
 	}
 }
@@ -213,13 +236,14 @@ func VerifC11PruneFrom() {
 				multi = true
 			}
 		}
+		dev := vDeviation(got, want[si])
 		switch {
 		case len(shape) > 1:
-			vAssert(false, "C11.prunefrom.shared-location: frames of a location shared between samples were trimmed according to another sample's context")
+			vAssert(false, "C11.prunefrom.shared-location."+dev+": frames of a location shared between samples were trimmed according to another sample's context")
 		case multi:
-			vAssert(false, "C11.prunefrom.inline-location: frames on the root side of the lowest match were dropped from a location with inlined frames")
+			vAssert(false, "C11.prunefrom.inline-location."+dev+": frames on the root side of the lowest match were dropped from a location with inlined frames")
 		default:
-			vAssert(false, "C11.prunefrom.frames: remaining frames differ from the documented rule")
+			vAssert(false, "C11.prunefrom.frames."+dev+": remaining frames differ from the documented rule")
 		}
 	}
 }
